@@ -116,7 +116,11 @@ func (p *inputPool) badInput(r *prng.R, useTok bool) *harness.Input {
 			s = d
 		}
 	}
-	toks := p.gr.Mutate(r, s.Tokens, 1+r.Intn(3))
+	nm := 1 + r.Intn(3)
+	if r.Chance(1, 5) {
+		nm = 6 + r.Intn(9) // many errors in one input (recovery budgets, counters)
+	}
+	toks := p.gr.Mutate(r, s.Tokens, nm)
 	txt, laid := p.gr.Layout(r, toks)
 	if !useTok && r.Chance(1, 3) {
 		if r.Chance(1, 4) {
@@ -144,6 +148,9 @@ func (p *inputPool) history(r *prng.R) []harness.Op {
 			case 1:
 				if lexLive {
 					ops = append(ops, harness.Op{Op: "lexscan", N: r.Intn(14)})
+					if r.Chance(1, 3) {
+						ops = append(ops, harness.Op{Op: "lexrefill", In: &harness.Input{Text: p.someText(r)}}, harness.Op{Op: "lexreset"})
+					}
 				}
 			case 2:
 				if lexLive {
@@ -212,6 +219,9 @@ func (p *inputPool) history(r *prng.R) []harness.Op {
 		case x < 94:
 			if lexLive {
 				ops = append(ops, harness.Op{Op: "lexscan", N: r.Intn(12)})
+				if r.Chance(1, 2) {
+					ops = append(ops, harness.Op{Op: "lexrefill", In: &harness.Input{Text: p.someText(r)}}, harness.Op{Op: "lexreset"})
+				}
 			}
 		default:
 			if lexLive {
